@@ -57,6 +57,8 @@ def _subst(x: Any, i: int, j: int, v: Any, w: Any) -> Any:
         return w
     if x == "$vc":
         return [v, {"k": w}]
+    if x == "$is":  # the same index, spelled as a string token (the route JSONPointer.from_parts takes)
+        return pick(["0", "1", "2", "3", "4", "5"], i) if isinstance(i, int) else "0"
     if x == "$ki":
         return pick(KEYS, i % len(KEYS)) if isinstance(i, int) else "c"
     if x == "$kj":
